@@ -20,6 +20,7 @@ import (
 	"github.com/protolambda/ztyp/tree"
 
 	"verif/sim/core"
+	"verif/sim/sszmodel"
 )
 
 // simNode: one beacon node. It keeps its OWN post-states (never the builder's), reached
@@ -306,6 +307,22 @@ func (s *sim) checkRoots(box *stateBox, where string) {
 	}
 	if !bytes.Equal(sb, b) {
 		s.viol("C04", "state/struct-bytes-vs-view-bytes", fmt.Sprintf("%s (%s): struct form serializes to %d bytes, view to %d; they differ", where, forkName(st), len(sb), len(b)))
+		return
+	}
+	// third leg: the specification's schema, merkleised by the harness's own code (sszmodel)
+	m, err := s.modelOf(box.st)
+	if err != nil {
+		return
+	}
+	specRoot, err := sszmodel.StateRoot(spec, m)
+	if err != nil {
+		s.res.Harness = "sszmodel: " + err.Error()
+		s.stop = true
+		return
+	}
+	s.res.Stat("root_checks_against_own_merkleizer", 1)
+	if common.Root(specRoot) != viewRoot {
+		s.viol("C05", "state/spec-schema-root-vs-view-root", fmt.Sprintf("%s (%s): hash_tree_root by the specification's schema %x, tree view %s", where, forkName(st), specRoot, viewRoot))
 	}
 }
 
